@@ -22,10 +22,13 @@ RULE = (
     "deterministic). For lengths about L, 2L, 4L: cost(2x)/cost(x) <= 1.25 * len(2x)/len(x) at both doublings and "
     "cost-per-character(4L) <= 1.3 * cost-per-character(L) + 5. Nesting families: beyond maxNesting the cost per "
     "character and the Python call depth do not grow. Non-trivial = the largest input of the case costs >= 10^4 "
-    "calls; distinct = distinct (family, L, preset)."
+    "calls; distinct = distinct (family, L, preset). Second, finer deterministic measure of the same work: executed source "
+    "lines of markdown_it code (sys.monitoring LINE events) - a rule's inner loop iterations are helper work written "
+    "in line; the same growth predicate is applied to it (signature superlinear-lines), so that a guard whose removal "
+    "adds no call (delimiter lower bounds, backtick scan cache) is still visible."
 )
 ASSUMPTIONS = [
-    "work inside C-level string/regex primitives is invisible to the call count (by the property's own definition of the measure)",
+    "work inside C-level string/regex primitives is invisible to both measures (by the property's own definition of the measure)",
     "'roughly doubles' is operationalised by the stated thresholds (linear families measure 0.95-1.02, quadratic ones 1.9-2.0)",
 ]
 NO_SHRINK = True
@@ -80,6 +83,17 @@ F = {
     "em_star_under": lambda n: "a**b" + "c* " * n,
     "em_mix3": lambda n: "*a **b ***c " * n,
     "em_pairs": lambda n: "*a* " * n,
+    # unmatched closers/openers of several marker characters interleaved (per-marker lower bounds of the opener search)
+    "em_closers_two_markers": lambda n: "a* b_ " * n,
+    "em_closers_three_markers": lambda n: "a* b_ c~~ " * n,
+    "em_closers_strong_two_markers": lambda n: "a** b__ " * n,
+    "em_closers_lengths": lambda n: "a* b** c*** " * n,
+    "em_openers_two_markers": lambda n: "*a _b " * n,
+    "em_openers_three_markers": lambda n: "*a _b ~~c " * n,
+    "em_both_flanking_two_markers": lambda n: "a*b_c" * n,
+    "em_both_flanking_three_markers": lambda n: "a*b_c~~d" * n,
+    "em_open_then_close_two_markers": lambda n: "*a _b " * n + "c* d_ " * n,
+    "em_crossing_pairs": lambda n: "*a _b c* d_ " * n,
     "em_openers_then_closers": lambda n: "*a " * n + "b* " * n,
     "strike": lambda n: "~~a " * n,
     "strike_nested": lambda n: "~~" * n + "a" + "~~" * n,
@@ -198,6 +212,7 @@ class CostExplosion(BaseException):
 
 
 CALL_LIMIT = 3 * 10**8  # absolute ceiling of one measurement
+LINE_LIMIT = 3 * 10**9
 CASE_TIMEOUT_S = 1800  # the wall-clock guard of the runner is not a verdict; measurements are bounded by call budgets
 
 
@@ -207,13 +222,20 @@ def call_budget(length: int) -> int:
     return min(CALL_LIMIT, 2500 * (length + 400))
 
 
+def line_budget(length: int) -> int:
+    """Same for executed library lines: 40000 per character (the costliest linear family needs ~4100)."""
+    return min(LINE_LIMIT, 40000 * (length + 400))
+
+
 class Cost:
-    def __init__(self, limit: int = CALL_LIMIT) -> None:
+    def __init__(self, limit: int = CALL_LIMIT, line_limit: int = LINE_LIMIT) -> None:
         self.root = boot.lib_root()
         self.n = 0
+        self.lines = 0
         self.depth = 0
         self.maxdepth = 0
         self.limit = limit
+        self.line_limit = line_limit
 
     def prof(self, frame, event, arg):  # noqa: ARG002
         if event == "call":
@@ -228,19 +250,50 @@ class Cost:
         elif event == "return":
             self.depth -= 1
 
+    def line(self, code, lineno):  # noqa: ARG002
+        if code.co_filename.startswith(self.root):
+            self.lines += 1
+            if self.lines > self.line_limit:
+                _MON.set_events(_TOOL, 0)
+                raise CostExplosion()
+            return None
+        return _MON.DISABLE
 
-def cost(md, src: str, limit: int = CALL_LIMIT) -> tuple[int, int]:
-    c = Cost(limit)
+
+_MON = sys.monitoring
+_TOOL = _MON.PROFILER_ID
+_ARMED = [False]
+
+
+def cost2(md, src: str, limit: int = CALL_LIMIT, line_limit: int | None = None) -> tuple[int, int, int]:
+    """(calls, executed library lines, maximal Python call depth) of one render; calls = -1 on RecursionError."""
+    c = Cost(limit, line_limit if line_limit is not None else LINE_LIMIT)
+    if not _ARMED[0]:
+        try:
+            _MON.use_tool_id(_TOOL, "verif-c20-lines")
+        except ValueError:
+            pass
+        _ARMED[0] = True
+    _MON.register_callback(_TOOL, _MON.events.LINE, c.line)
+    _MON.restart_events()
+    _MON.set_events(_TOOL, _MON.events.LINE)
     sys.setprofile(c.prof)
     try:
         md.render(src)
     except CostExplosion:
-        return c.n, c.maxdepth
+        return c.n, c.lines, c.maxdepth
     except RecursionError:
-        return -1, c.maxdepth
+        return -1, c.lines, c.maxdepth
     finally:
         sys.setprofile(None)
-    return c.n, c.maxdepth
+        _MON.set_events(_TOOL, 0)
+        _MON.register_callback(_TOOL, _MON.events.LINE, None)
+    return c.n, c.lines, c.maxdepth
+
+
+def cost(md, src: str, limit: int = CALL_LIMIT) -> tuple[int, int]:
+    n, _, d = cost2(md, src, limit)
+    return n, d
 
 
 def sized(f, target: int) -> str:
@@ -318,20 +371,33 @@ def _slope(pts) -> float:
     return sum((x - mx) * (y - my) for x, y in zip(xs, ys)) / den if den else 1.0
 
 
+def _verdict(pts, floor: int, slack: float) -> str:
+    """'small' (constants dominate) | 'ok' | 'super' | 'ambiguous' for one (length, cost) series at L, 2L, 4L."""
+    if pts[-1][1] < floor:
+        return "small"
+    ratios = [(c1 / max(c0, 1)) / (l1 / l0) for (l0, c0), (l1, c1) in zip(pts, pts[1:])]
+    cpc0, cpc2 = pts[0][1] / pts[0][0], pts[-1][1] / pts[-1][0]
+    if all(r <= 1.25 for r in ratios) and cpc2 <= 1.3 * cpc0 + slack:
+        return "ok"
+    if all(r >= 1.6 for r in ratios):
+        return "super"
+    return "ambiguous"
+
+
 def growth(md, f, L: int, res: Res, name: str, preset: str) -> None:
-    """cost at L, 2L, 4L.  Clear cases are decided there (every doubling <= 1.25 x length ratio: holds;
-    every doubling >= 1.8 x: super-linear).  In between - the cost per character of some bounded
-    families oscillates by a factor of up to ~3 around the nesting cut-off - two more doublings are
-    measured and the growth exponent over the 16-fold range decides (> 1.45: super-linear)."""
-    pts = []
+    """cost at L, 2L, 4L in both measures (library calls; executed library lines).  Clear cases are decided
+    there (every doubling <= 1.25 x length ratio: holds; every doubling >= 1.6 x: super-linear).  In between -
+    the cost per character of some bounded families oscillates by a factor of up to ~3 around the nesting
+    cut-off - two more doublings are measured and the growth exponent over the 16-fold range decides
+    (> 1.45: super-linear)."""
+    pts: list = []  # (length, calls)
+    ptl: list = []  # (length, lines)
 
     def measure(k):
         s = sized(f, L * k)
-        c, _ = cost(md, s, call_budget(len(s)))
+        c, ln, _ = cost2(md, s, call_budget(len(s)), line_budget(len(s)))
         pts.append((len(s), c))
-
-    class _Stop(Exception):
-        pass
+        ptl.append((len(s), ln))
 
     for k in (1, 2, 4):
         measure(k)
@@ -342,29 +408,42 @@ def growth(md, f, L: int, res: Res, name: str, preset: str) -> None:
             res.nt = True
             res.fail(f"cost-explosion:{name}:{preset}", f"{name}: more than {pts[-1][1] - 1} library calls for {pts[-1][0]} characters (deterministic call budget exceeded); (length, calls) so far {pts}")
             return
+        if ptl[-1][1] > line_budget(ptl[-1][0]):
+            res.nt = True
+            res.fail(f"cost-explosion-lines:{name}:{preset}", f"{name}: more than {ptl[-1][1] - 1} executed library lines for {ptl[-1][0]} characters (deterministic budget exceeded); (length, lines) so far {ptl}")
+            return
         if k > 1 and pts[-1][0] < 1.5 * pts[-2][0]:
             res.cls.append("family-does-not-scale")
             return
     res.note = pts
     res.nt = pts[-1][1] >= 10**4
-    if pts[-1][1] < 5000:
-        return  # constants dominate
-    ratios = [(c1 / max(c0, 1)) / (l1 / l0) for (l0, c0), (l1, c1) in zip(pts, pts[1:])]
-    cpc0, cpc2 = pts[0][1] / pts[0][0], pts[-1][1] / pts[-1][0]
-    if all(r <= 1.25 for r in ratios) and cpc2 <= 1.3 * cpc0 + 5:
+    vc, vl = _verdict(pts, 5000, 5), _verdict(ptl, 30000, 25)
+
+    def detail(series, unit):
+        return f"{name}: (length, {unit}) {series}; {unit} per character {[round(c / l, 1) for l, c in series]}"
+
+    if vc == "super":
+        res.fail(f"superlinear:{name}:{preset}", detail(pts, "calls"))
         return
-    detail = f"{name}: (length, calls) {pts}; calls per character {[round(c / l, 1) for l, c in pts]}"
-    if all(r >= 1.6 for r in ratios):
-        res.fail(f"superlinear:{name}:{preset}", detail)
+    if vl == "super":
+        res.fail(f"superlinear-lines:{name}:{preset}", detail(ptl, "lines"))
+        return
+    if "ambiguous" not in (vc, vl):
         return
     res.cls.append("ambiguous-growth(extended to 16L)")
     for k in (8, 16):
         measure(k)
-        if pts[-1][1] > 4 * 10**7:
+        if pts[-1][1] > 4 * 10**7 or ptl[-1][1] > 4 * 10**8:
             break
-    sl = _slope(pts)
-    if sl > 1.45:
-        res.fail(f"superlinear:{name}:{preset}", f"{name}: growth exponent {sl:.2f} over (length, calls) {pts}")
+    if vc == "ambiguous":
+        sl = _slope(pts)
+        if sl > 1.45:
+            res.fail(f"superlinear:{name}:{preset}", f"{name}: growth exponent {sl:.2f} over (length, calls) {pts}")
+            return
+    if vl == "ambiguous":
+        sl = _slope(ptl)
+        if sl > 1.45:
+            res.fail(f"superlinear-lines:{name}:{preset}", f"{name}: growth exponent {sl:.2f} over (length, lines) {ptl}")
 
 
 def check(case) -> Res:
@@ -390,12 +469,18 @@ def check(case) -> Res:
     # nesting cut-off
     mx = md.options["maxNesting"]
     f = NEST[case["family"]]
-    base_c, base_d = cost(md, f(mx))
+    base_c, base_d = cost(md, f(mx), call_budget(len(f(mx))))
     base_cpc = base_c / len(f(mx))
     res.nt = True
+    if base_c > call_budget(len(f(mx))):
+        res.fail(f"cost-explosion:nest-{case['family']}:{case['preset']}", f"depth {mx}: more than {base_c - 1} library calls for {len(f(mx))} characters (deterministic call budget exceeded)")
+        return res
     for mult in (2, 8, 40):
         s = f(mx * mult)
-        c, dep = cost(md, s)
+        c, dep = cost(md, s, call_budget(len(s)))
+        if c > call_budget(len(s)):
+            res.fail(f"cost-explosion:nest-{case['family']}:{case['preset']}", f"depth {mx * mult}: more than {c - 1} library calls for {len(s)} characters (deterministic call budget exceeded)")
+            break
         if c / len(s) > 1.3 * base_cpc + 5:
             res.fail(f"nesting-not-cut-off:cost:{case['family']}:{case['preset']}", f"depth {mx * mult}: {c / len(s):.1f} calls/char vs {base_cpc:.1f} at maxNesting={mx}")
             break
